@@ -5,7 +5,7 @@
 From Coq Require Import ZArith List Bool Ring Field QArith Permutation String.
 Require Import MV.Lib.Base MV.C18.Ops MV.C18.Gen MV.C18.Model.
 Require Import MV.C18.Proofs_Herm MV.C18.Proofs_Opt MV.C18.Proofs_Cstr MV.C18.Proofs_Index MV.C18.Proofs_Main MV.C18.Proofs_Range MV.C18.Proofs_Gauge
-  MV.C18.Proofs_Quantum MV.C18.Proofs_GaugeExt MV.C18.Proofs_Stage MV.C18.Examples.
+  MV.C18.Proofs_Quantum MV.C18.Proofs_GaugeExt MV.C18.Proofs_Stage MV.C18.Proofs_Rot MV.C18.Examples.
 Open Scope Z_scope.
 
 (* FULL.  The connection Laplacians are Hermitian, L_ij = conj L_ji: on faces (Nabla^* D Nabla of laplacian_triangles) for
@@ -350,3 +350,33 @@ Theorem C18_init_caches :
   initf_cached = nil /\ initv_cached = ("corner_angles" :: "cotangent" :: "vertex_normals" :: nil)%string.
 Proof. exact init_caches. Qed.
 Print Assumptions C18_init_caches.
+
+(* FULL (clause "the directions do not depend on ... which vertex each face starts from", for the CONSTRAINED faces).  A face
+   with exactly one feature edge is rotated by the connection so that it starts at that edge: its three rotations get the
+   same rotated triple, hence (for any numeric type and any coordinates) the same tangent basis - X along the feature edge -
+   and, by C18_constraint, the same constraint c1. *)
+Theorem C18_face_rotation_constraint :
+  forall (E : list edge) (FE : list Z) (A B C : Z),
+    one_feature_edge E FE (A, B, C) = true ->
+    (one_feature_edge E FE (B, C, A) = true /\ one_feature_edge E FE (C, A, B) = true) /\
+    (conn_face E FE (B, C, A) = conn_face E FE (A, B, C) /\ conn_face E FE (C, A, B) = conn_face E FE (A, B, C)) /\
+    (forall (T : Type) (O : ops T) (V : list (vec T)),
+        conn_base O V E FE (B, C, A) = conn_base O V E FE (A, B, C) /\ conn_base O V E FE (C, A, B) = conn_base O V E FE (A, B, C)).
+Proof. exact rotation_all. Qed.
+Print Assumptions C18_face_rotation_constraint.
+
+(* FULL.  Letting every face of the list start from another of its vertices changes nothing in the combinatorial layer of the
+   face-based pipeline: the face left of every directed edge, the dual edges (with their face pairs), the constrained faces and
+   the free / fixed partition are the same.  (What does change is the tangent basis of the faces WITHOUT feature edge - a
+   gauge: C18_gauge_operator_partial and C18_gauge_harmonic_extension say the operator and every solved field follow it.) *)
+Theorem C18_face_rotation_combinatorics :
+  forall (F F' : list face) (E : list edge) (FE : list Z),
+    Forall2 rot_of F F' ->
+    (forall u v, direct_face F' u v = direct_face F u v) /\
+    dual_pairs F' E = dual_pairs F E /\
+    (forall t, fixed_face F' E FE t = fixed_face F E FE t) /\
+    zlen F' = zlen F /\
+    part_free (zlen F') (fixed_face F' E FE) = part_free (zlen F) (fixed_face F E FE) /\
+    part_fixed (zlen F') (fixed_face F' E FE) = part_fixed (zlen F) (fixed_face F E FE).
+Proof. exact face_rotation_combinatorics. Qed.
+Print Assumptions C18_face_rotation_combinatorics.
